@@ -521,7 +521,7 @@ func loadWorld(v *View, pkgDirs []string) (*World, error) {
 	w.interpPkgs = map[string]bool{
 		"math/bits": true, "slices": true, "maps": true, "cmp": true, "golang.org/x/exp/maps": true,
 		"golang.org/x/exp/slices": true, "unicode/utf8": true, "sort": true, "math": true, "time": true,
-		"internal/stringslite": true, "strings": true, "bytes": true, "io": true, "errors": true,
+		"internal/stringslite": true, "path": true, "path/filepath": true, "strings": true, "bytes": true, "io": true, "errors": true,
 		"github.com/planetscale/vtprotobuf/codec/drpc": true, // Marshal/Unmarshal = the message's own MarshalVT/UnmarshalVT
 	}
 	rt := prog.ImportedPackage("runtime")
